@@ -94,6 +94,46 @@ class Path:
 MAX_PATHS = 4096
 
 
+LEN_ATOM = re.compile(r"^(.*\|length) (==|!=|>|>=|<|<=) (\d+)$")
+
+
+def _norm_atom(text, want):
+    """`x|length == 0`, `x|length != 0`, `x|length >= 1`, `x|length < 1` all speak about the atom `x|length > 0`"""
+    m = LEN_ATOM.match(text)
+    if m:
+        base, op, n = m.group(1), m.group(2), int(m.group(3))
+        table = {("==", 0): False, ("!=", 0): True, (">", 0): True, (">=", 1): True, ("<", 1): False, ("<=", 0): False}
+        if (op, n) in table:
+            return ("%s > 0" % base, want if table[(op, n)] else (not want))
+    return (text, want)
+
+
+def cond_cases(e, want, env, env_ast, depth=0):
+    """alternatives under which expression e evaluates to `want`: list of tuples of (atom text, bool)"""
+    if e.get("negated"):
+        inner = dict(e)
+        inner["negated"] = False
+        return cond_cases(inner, not want, env, env_ast, depth)
+    v = e["val"]
+    if not e.get("filters"):
+        if v["k"] == "logic" and v["op"] in ("and", "or"):
+            l_t = cond_cases(v["l"], True, env, env_ast, depth)
+            l_f = cond_cases(v["l"], False, env, env_ast, depth)
+            r_t = cond_cases(v["r"], True, env, env_ast, depth)
+            r_f = cond_cases(v["r"], False, env, env_ast, depth)
+            if v["op"] == "and":
+                out = [a + b for a in l_t for b in r_t] if want else (l_f + [a + b for a in l_t for b in r_f])
+            else:
+                out = (l_t + [a + b for a in l_f for b in r_t]) if want else [a + b for a in l_f for b in r_f]
+            return [x for x in out if consistent(x)][:64]
+        if v["k"] == "ident" and "." not in v["v"] and v["v"] in env_ast and depth < 6:
+            val, env0 = env_ast[v["v"]]
+            return cond_cases(val, want, env0, env_ast, depth + 1)
+        if v["k"] == "bool":
+            return [()] if bool(v["v"]) == want else []
+    return [(_norm_atom(expr_text(e, env), want),)]
+
+
 class Templates:
     def __init__(self, S):
         self.S = S
@@ -112,10 +152,19 @@ class Templates:
             return None
         return self._paths(ast, {}, 0)
 
+    _env_ast = {}
+
     def _paths(self, nodes, env, depth):
         """-> list[Path]; env maps `set` variables to expression text"""
         acc = [Path()]
         env = dict(env)
+        saved_ast = self._env_ast
+        try:
+            return self._paths_inner(nodes, env, depth, acc)
+        finally:
+            self._env_ast = saved_ast
+
+    def _paths_inner(self, nodes, env, depth, acc):
         for n in nodes:
             k = n["k"]
             if k == "text":
@@ -126,6 +175,8 @@ class Templates:
                 t = expr_text(n["e"], env)
                 acc = [p.extend(Path((), [("hole", t, n["e"])])) for p in acc]
             elif k == "set":
+                self._env_ast = dict(self._env_ast)
+                self._env_ast[n["key"]] = (n["value"], dict(env))
                 env[n["key"]] = expr_text(n["value"], env)
             elif k == "include":
                 sub = None
@@ -147,19 +198,29 @@ class Templates:
                 item = ("loop", n["value"], expr_text(n["container"], env), bodies)
                 acc = [p.extend(Path((), [item])) for p in acc]
             elif k == "if":
+                # conditions are unfolded into their atoms (`a or b`, `not a and not b`, a `set` variable holding such an expression): a path
+                # records the truth value of each atom, so two templates that spell the same decision differently have the same paths
                 branches = []
-                negs = []
+                negs = [()]          # alternatives (tuples of atom outcomes) under which every earlier condition failed
                 for c in n["conds"]:
-                    ct = expr_text(c["cond"], env)
+                    pos = cond_cases(c["cond"], True, env, self._env_ast)
                     subs = self._paths(c["body"], env, depth + 1)
-                    for s in subs:
-                        branches.append(Path(tuple(negs) + ((ct, True),), []).extend(s))
-                    negs.append((ct, False))
+                    for ng in negs:
+                        for ps in pos:
+                            if not consistent(ng + ps):
+                                continue
+                            for s in subs:
+                                branches.append(Path(ng + ps, []).extend(s))
+                    neg_c = cond_cases(c["cond"], False, env, self._env_ast)
+                    negs = [ng + nc for ng in negs for nc in neg_c if consistent(ng + nc)][:64]
                 if n.get("else") is not None:
-                    for s in self._paths(n["else"], env, depth + 1):
-                        branches.append(Path(tuple(negs), []).extend(s))
+                    els = self._paths(n["else"], env, depth + 1)
+                    for ng in negs:
+                        for s in els:
+                            branches.append(Path(ng, []).extend(s))
                 else:
-                    branches.append(Path(tuple(negs), []))
+                    for ng in negs:
+                        branches.append(Path(ng, []))
                 acc = [p.extend(b) for p in acc for b in branches][:MAX_PATHS]
             elif k in ("block", "filtersection"):
                 sub = self._paths(n["body"], env, depth + 1)
@@ -172,6 +233,7 @@ class Templates:
         """template names passed to render(..) anywhere in the sources (string literals)"""
         from srclib import walk_block, lit_str
         names = set()
+        registrars = {v["registrar"] for v in self.reg.values()}
         for f in self.S.fns:
             if f.body is None:
                 continue
@@ -180,6 +242,12 @@ class Templates:
                     s = lit_str(e["args"][0])
                     if s:
                         names.add(s)
+                elif e.get("k") in ("mcall", "call") and e.get("args") and f.qname not in registrars and e.get("method") != "add_raw_template":
+                    # a registered template name handed to a wrapper around render
+                    for a in e["args"]:
+                        s = lit_str(a)
+                        if s and s in self.reg:
+                            names.add(s)
         return names
 
     def reachable_templates(self):
